@@ -124,9 +124,14 @@ def gen_iso(rng, n):
     files, meta = {}, {}
     for i, (e, imp, sh, pl, ptr) in enumerate(combos[:n] if n else combos):
         name = "iso%03d" % i
-        src = "package %s\n\nimport %s\n\ntype T %s\n\n%s\n" % (name, imp, sh.replace("E", e), ISO_CALLS[pl].replace("X", "*T" if ptr else "T"))
+        # every third package reaches the imported type through a type ALIAS declared next to T (go/types hands the
+        # generator a *types.Alias there, not a *types.Named): refused with a message or generated and type-correct
+        alias = i % 3 == 2
+        decl = "type AE = %s\n\n" % e if alias else ""
+        shape = sh.replace("E", "AE" if alias else e)
+        src = "package %s\n\nimport %s\n\n%stype T %s\n\n%s\n" % (name, imp, decl, shape, ISO_CALLS[pl].replace("X", "*T" if ptr else "T"))
         files["iso/%s/%s.go" % (name, name)] = src
-        meta[name] = {"imported": e, "shape": sh.replace("E", e), "plugin": pl, "arg": "*T" if ptr else "T"}
+        meta[name] = {"imported": e, "shape": shape, "plugin": pl, "arg": "*T" if ptr else "T", "alias": alias}
     return files, meta
 
 
@@ -259,6 +264,7 @@ def iso_part(rep, binp, rng, root):
     rep.cov["evaluations"] += len(okp)
     rep.cov["distinct_nontrivial"] += len(okp)
     rep.cov["isolated_packages"] = {"generated": len(okp), "refused_with_message": refused,
+                                    "through_alias": sum(1 for n in okp if meta[n].get("alias")),
                                     "by_plugin": {pl: sum(1 for n in okp if meta[n]["plugin"] == pl) for pl in sorted(ISO_CALLS)}}
 
 
